@@ -18,7 +18,7 @@ RULE = (
     "working tree (all FMsg types + custom types; plain FTag and custom tags; every usable group of "
     "the table with 1..k items, first member always present, other members an arbitrary subset in "
     "table order, nested to depth 4; values = non-empty printable ASCII boosted with framing "
-    "look-alikes; modes normal / PossDupFlag (flag before the body or, as a retransmission has it, PossDupFlag + OrigSendingTime "
+    "look-alikes, in two extra shards also printable single-byte characters 0xA0-0xFF (wire bytes = Latin-1, as the decoder reads them); modes normal / PossDupFlag (flag before the body or, as a retransmission has it, PossDupFlag + OrigSendingTime "
     "behind the body) / SequenceReset / raw_seq_num; type spelled as enum member or plain string, custom types incl. ones spelled "
     "like enum member names; one Codec object shared by all cases of a shard (many sessions); arbitrary CompIDs and "
     "counters), plus a seed-independent sweep of every table entry x 1..3 items x {delimiter only, "
@@ -27,7 +27,7 @@ RULE = (
     "structural signature (type, mode, group paths with item counts, look-alike positions)."
 )
 ASSUMPTIONS = [
-    "values are non-empty printable ASCII (0x20-0x7E) as the statement says; empty values, zero-item groups, members out of table order are FREE",
+    "values are non-empty single-byte printable text (0x20-0x7E, and 0xA0-0xFF in the Latin-1 shards); empty values, zero-item groups, members out of table order are FREE",
     "ambiguity no dictionary-less parser can resolve is excluded by construction: after group G no sibling tag that is a (transitive) member of G",
 ]
 
@@ -74,9 +74,10 @@ def run_case(acc, case, replaying=False):
         _count(acc, case, marker)
         return
     try:
-        wire = text.encode("ascii")
+        # one byte per character (the decoder reads the wire as Latin-1); for the ASCII cases this is the ASCII encoding
+        wire = text.encode("latin-1")
     except UnicodeEncodeError as e:
-        bad("encode-non-ascii", f"encoder output is not ASCII: {e}")
+        bad("encode-non-ascii", f"encoder output is not single-byte text: {e}")
         _count(acc, case, marker)
         return
     try:
@@ -142,14 +143,43 @@ def sweep(acc):
     acc.extra["table_entries"] = len(G.TABLE)
 
 
+_L1 = st.text(alphabet=st.characters(min_codepoint=0xA0, max_codepoint=0xFF), min_size=1, max_size=6)
+
+
+@st.composite
+def latin1_case(draw, max_entries):
+    """A generated message some of whose values also carry printable single-byte characters beyond ASCII (0xA0-0xFF)."""
+    case = dict(draw(G.message_case(True, max_entries)))
+
+    def walk(body):
+        out = []
+        for e in body:
+            if e[0] == "f":
+                out.append((e[0], e[1], e[2] + draw(_L1)) if draw(st.integers(0, 2)) == 0 else e)
+            else:
+                out.append((e[0], e[1], [walk(i) for i in e[2]]))
+        return out
+    case["body"] = walk(case["body"])
+    case["latin1"] = True
+    return case
+
+
 def hyp_shard(acc, n, seed, max_entries):
     run_given(G.message_case(True, max_entries), lambda c: run_case(acc, c), n, seed)
+
+
+def latin1_shard(acc, n, seed, max_entries):
+    def one(c):
+        run_case(acc, c)
+        acc.klass("latin-1-values")
+    run_given(latin1_case(max_entries), one, n, seed)
 
 
 def plan(tier, seed):
     shards, n, me = (8, 500, 8) if tier == "quick" else (16, 20000, 14)
     jobs = [("sweep", {})]
     jobs += [("hyp_shard", {"n": n, "seed": derive_seed(seed, PROPERTY, i), "max_entries": me}) for i in range(shards)]
+    jobs += [("latin1_shard", {"n": n // 2, "seed": derive_seed(seed, PROPERTY, 100 + i), "max_entries": 6}) for i in range(2)]
     return jobs
 
 
